@@ -14,6 +14,7 @@ func init() {
 				Reach:     []string{"path rejected", "upload injected"},
 				Functions: []string{"requests.(*ParseRequestResponse).injectFile"}},
 			{Name: "handler-corners", Pkg: ".", Files: []string{"root/fed.go", "root/c01.go", "root/c16.go", "root/c07k3.go"}, Entry: "VerifHandlerCorners", Mode: "seq", Native: true,
+				Quick: map[string]int{"unwind": 100000}, Thorough: map[string]int{"unwind": 100000},
 				Reach:     []string{"corner operation answered", "corner operation inside a batch", "corner operation served from the plan cache"},
 				Functions: []string{"(*Gateway).Handler", "(*Gateway).queryHandler", "(*Gateway).parseIntrospectionQuery", "introspection.(*IntrospectionResolver).*", "planner.SequentialPlanner.Plan", "planner.sanitizeSelectionSet", "executor.ParallelExecutor.Execute"}},
 		},
